@@ -29,7 +29,7 @@ let kind_name (k : fkind) : String.t =
   | FSpecInsert -> "SpecInsert" | FSpecDelete -> "SpecDelete" | FSpecConstraint -> "SpecConstraint"
   | FNoop -> "Noop" | FRoundtrip -> "Roundtrip" | FInterfere -> "Interfere" | FNotRouted -> "NotRouted"
   | FSame -> "Same" | FDumpOf -> "DumpOf"
-  | FBuiltin -> "Builtin" | FOci -> "Oci" | FOciModel -> "OciModel" | FOciName -> "OciName" | FUnknownRouter -> "UnknownRouter" | FArcs -> "Arcs" | FSplitChar -> "SplitChar" | FIndexSearch -> "IndexSearch" | FOciE2E -> "OciE2E"
+  | FBuiltin -> "Builtin" | FOci -> "Oci" | FOciModel -> "OciModel" | FOciName -> "OciName" | FUnknownRouter -> "UnknownRouter" | FArcs -> "Arcs" | FSplitChar -> "SplitChar" | FIndexSearch -> "IndexSearch" | FOciE2E -> "OciE2E" | FIndexOps -> "IndexOps"
 
 let () =
   let state = ref init_fstate in
